@@ -78,6 +78,8 @@ def classify(f, ops):
 
 
 def run(tier, seed, log, model_runs=True, enlarged=False):
+    from harness import progs
+    sweep = progs.string_sweep(['a', '"', '\\', '\n', "'"], 4 if tier == "quick" else 5)
     return worldprop.run(PROP, tier, seed, log, model_runs, enlarged, C06Oracle, ["provn", "mixed"],
                          n_quick=140, n_thorough=2500, classify=classify, nontrivial=c01.nontrivial,
                          ops_range_quick=(6, 20), ops_range_thorough=(8, 36),
@@ -86,7 +88,10 @@ def run(tier, seed, log, model_runs=True, enlarged=False):
                                    "language-tagged literals, ints, floats, booleans, datetimes, URIs, qualified-name values); "
                                    "every document's get_provn() is read by the extracted PROV-N reader and the content must "
                                    "equal the strict content of the document (formal arguments positionally); the model's "
-                                   "text is compared with the implementation's at token level; non-trivial = >=2 records",
+                                   "text is compared with the implementation's at token level; non-trivial = >=2 records"
+                                   "; fixed programs: every string over {a, double quote, backslash, newline, single quote} up to "
+                                   "length 4 (thorough: 5) as a plain and as a language-tagged value",
+                         extra_cases=progs.string_sweep_programs(sweep),
                          theorem_note="C06_* over Provn.escape_provn / ProvnSpec.short_string, long_string")
 
 
